@@ -86,7 +86,11 @@ def main():
         data = json.load(open(os.path.join(dd, 'data.json')))
         n = len(data)
         cfg = re.sub(r'CH = \d+', f'CH = {min(64, n)}', meta['cfg'])
-        base = vlib.run_tlc(meta['module'], cfg, data, files=meta['files'], timeout=900, tag='selftest')
+        try:
+            base = vlib.run_tlc(meta['module'], cfg, data, files=meta['files'], timeout=900, tag='selftest')
+        except vlib.Machinery as e:
+            print(f'{d}: skipped ({str(e)[:80]})', flush=True)
+            continue
         clean = {i for i, _ in base['verdicts']}
         idx = [i for i in rnd.sample(range(n), min(n, 40)) if (i + 1) not in clean]
         corrupted = {}
@@ -104,7 +108,10 @@ def main():
             bad = list(data)
             for i in ids:
                 bad[i] = corrupted[i]
-            res = vlib.run_tlc(meta['module'], cfg, bad, files=meta['files'], timeout=900, tag='selftest')
+            try:
+                res = vlib.run_tlc(meta['module'], cfg, bad, files=meta['files'], timeout=300, tag='selftest')
+            except vlib.Machinery as e:      # a corrupted number can make an evaluation run away: counted like an evaluation error
+                res = {'error': str(e), 'verdicts': []}
             if res['error']:
                 if len(ids) == 1:
                     stopped.add(ids[0] + 1)     # TLC cannot even interpret the corrupted record: rejected
